@@ -207,6 +207,8 @@ struct Gen<'a> {
     /// ids that existed and were consumed (for deliberate re-use)
     dead_buckets: Vec<u32>,
     dead_proofs: Vec<u32>,
+    /// the instruction the model refuses, and why
+    failed: Option<(Ins, FailClass)>,
 }
 
 impl<'a> Gen<'a> {
@@ -216,8 +218,19 @@ impl<'a> Gen<'a> {
             return;
         }
         let (b0, p0): (Vec<u32>, Vec<u32>) = (self.m.buckets.keys().cloned().collect(), self.m.proofs.keys().cloned().collect());
-        if self.m.step(&i).is_err() {
-            self.stopped = true;
+        let before = self.m.clone();
+        match self.m.step(&i) {
+            Ok(()) => {}
+            Err(stop) => {
+                // keep the state in front of the failing instruction (for the blind tidy ending)
+                self.m = before;
+                self.stopped = true;
+                if let Stop::Fail(class) = stop {
+                    self.failed = Some((i.clone(), class));
+                }
+                self.out.push(i);
+                return;
+            }
         }
         let died_b: Vec<u32> = b0.into_iter().filter(|b| !self.m.buckets.contains_key(b)).collect();
         let died_p: Vec<u32> = p0.into_iter().filter(|p| !self.m.proofs.contains_key(p)).collect();
@@ -886,6 +899,35 @@ impl<'a> Gen<'a> {
         }
     }
 
+    /// The model refuses an instruction; an engine that wrongly lets it pass should then find a
+    /// manifest that completes cleanly, so that the wrong success becomes visible: release all
+    /// proofs, return every bucket that would be alive, deposit the whole worktop. Needs no
+    /// knowledge of amounts. (With a correct engine the transaction fails before it gets here.)
+    fn blind_tidy(&mut self, failed: &Ins) {
+        let mut live: BTreeSet<u32> = self.m.buckets.keys().cloned().collect();
+        match failed {
+            Ins::Take { .. } | Ins::TakeNf { .. } | Ins::TakeAll { .. } => {
+                live.insert(self.m.next_bucket);
+            }
+            Ins::Return { bucket } | Ins::Burn { bucket } | Ins::Deposit { bucket, .. } => {
+                live.remove(bucket);
+            }
+            Ins::DepositBatch { buckets, .. } => {
+                for b in buckets {
+                    live.remove(b);
+                }
+            }
+            _ => {}
+        }
+        self.out.push(Ins::DropNamedProofs);
+        self.out.push(Ins::DropAzRegular);
+        for b in live {
+            self.out.push(Ins::Return { bucket: b });
+        }
+        let a = self.acct();
+        self.out.push(Ins::DepositWorktop { acct: a, kind: DepKind::TryAbort });
+    }
+
     fn tidy(&mut self) {
         // release locks, then hand everything back
         let any_locked_bucket = self.m.buckets.values().any(|c| self.m.containers[*c].is_locked()) || self.m.worktop.values().any(|c| self.m.containers[*c].is_locked());
@@ -933,7 +975,7 @@ pub fn generate(rng: &mut Rng, p: &Profile, res: &[ResInfo], holdings: &BTreeMap
         }
         _ => violate_pct = 30,
     }
-    let mut g = Gen { rng, p: p.clone(), m, v2, out: vec![], stopped: false, n_acct, violate_pct, dead_buckets: vec![], dead_proofs: vec![] };
+    let mut g = Gen { rng, p: p.clone(), m, v2, out: vec![], stopped: false, n_acct, violate_pct, dead_buckets: vec![], dead_proofs: vec![], failed: None };
     let fee = if g.rng.bool() { FeeSource::Faucet } else { FeeSource::FeeAccount };
     g.push(Ins::LockFee(fee));
     let len = g.rng.range(2, p.max_len as u64) as usize;
@@ -941,8 +983,9 @@ pub fn generate(rng: &mut Rng, p: &Profile, res: &[ResInfo], holdings: &BTreeMap
     let mut after_stop = 0;
     while g.out.len() < len {
         if g.stopped {
+            // a refused instruction is mostly followed by the blind tidy ending only
             after_stop += 1;
-            if after_stop > 2 {
+            if after_stop > 2 || g.failed.is_some() {
                 break;
             }
         }
@@ -977,6 +1020,11 @@ pub fn generate(rng: &mut Rng, p: &Profile, res: &[ResInfo], holdings: &BTreeMap
     }
     if !g.stopped && g.rng.below(100) < p.tidy_pct {
         g.tidy();
+    } else if let Some((failed, class)) = g.failed.clone() {
+        let meaningful = !matches!(class, FailClass::UnknownBucket | FailClass::UnknownProof | FailClass::LeftoverWorktop | FailClass::DanglingNonEmptyBucket | FailClass::DanglingEmptyBucket);
+        if meaningful && g.rng.chance(3, 4) {
+            g.blind_tidy(&failed);
+        }
     }
     let mut ins = g.out;
     if !v2 {
